@@ -130,11 +130,21 @@ func (s DefaultRESTStrategy) PrepareForUpdate(ctx context.Context, obj, old runt
 		specOld := reflect.ValueOf(old).Elem().FieldByName("Spec")
 
 		// Spec and annotation updates bump the generation.
-		if !reflect.DeepEqual(specNew, specOld) ||
+		if !specEqual(specNew, specOld) ||
 			!reflect.DeepEqual(accessorNew.GetAnnotations(), accessorOld.GetAnnotations()) {
 			accessorNew.SetGeneration(accessorOld.GetGeneration() + int64(1))
 		}
 	}
+}
+
+// specEqual compares the values held by two Spec fields. The reflect.Value
+// wrappers themselves must not be handed to reflect.DeepEqual, they are never
+// equal. A missing (invalid) field only equals another missing field.
+func specEqual(specNew, specOld reflect.Value) bool {
+	if !specNew.IsValid() || !specOld.IsValid() {
+		return specNew.IsValid() == specOld.IsValid()
+	}
+	return reflect.DeepEqual(specNew.Interface(), specOld.Interface())
 }
 
 func (DefaultRESTStrategy) Validate(ctx context.Context, obj runtime.Object) field.ErrorList {
